@@ -1,0 +1,53 @@
+//go:build verif
+
+package replica
+
+import "github.com/lindb/lindb/models"
+
+// Results of VerifReplicaStepNoWait.
+const (
+	VerifStepNoReplicator = iota // no replicator for the node
+	VerifStepNotReady            // channel not ready / not connected (partition.replica only logs in this case)
+	VerifStepWaitsForData        // channel ready and connected, nothing to consume: partition.replica would block in Consume
+	VerifStepDone                // partition.replica ran
+)
+
+// VerifReplicaStepNoWait is VerifReplicaStep without the blocking wait for new data: it makes the
+// channel ready (IsReady + Connect, exactly what partition.replica starts with) and runs
+// partition.replica only if the consumer group has something to consume; otherwise it reports
+// that the production loop would now wait for data (the caller runs the step again after the next
+// append). It still blocks inside IsReady while the follower is offline (see
+// VerifReplicatorSuspended). Build tag verif only.
+func VerifReplicaStepNoWait(p Partition, nodeID models.NodeID) (result int) {
+	defer func() {
+		// partition.replica recovers (and logs) panics of IsReady/Connect as well
+		if recovered := recover(); recovered != nil {
+			result = VerifStepNotReady
+		}
+	}()
+	pp, ok := p.(*partition)
+	if !ok {
+		return VerifStepNoReplicator
+	}
+	pp.mutex.Lock()
+	r, ok := pp.replicators[nodeID]
+	pp.mutex.Unlock()
+	if !ok {
+		return VerifStepNoReplicator
+	}
+	if !r.IsReady() || !r.Connect() {
+		return VerifStepNotReady
+	}
+	if r.Pending() <= 0 {
+		return VerifStepWaitsForData
+	}
+	pp.replica(nodeID, r)
+	return VerifStepDone
+}
+
+// VerifReplicatorSuspended reports whether the remote replicator is suspended inside IsReady
+// waiting for the online notification of its follower.
+func VerifReplicatorSuspended(r Replicator) bool {
+	rr, ok := r.(*remoteReplicator)
+	return ok && rr.isSuspend.Load()
+}
